@@ -2,6 +2,21 @@
 """prints the prompt for a fresh mutation-seeding sub-agent: property text + scratch worktree only"""
 import json, sys
 pid, wt = sys.argv[1], sys.argv[2]
+rnd = int(sys.argv[3]) if len(sys.argv) > 3 else 1
+import glob, os
+known = []
+for d in sorted(glob.glob(f'/verif/seeded/{pid}-m*')):
+    try:
+        known.append(json.load(open(os.path.join(d, 'meta.json'))).get('summary', '')[:260])
+    except Exception:
+        pass
+extra = ''
+if rnd > 1 and known:
+    extra = ("\n\nOther engineers already produced the following changes for this property — do NOT repeat them or close variants; "
+             "look for different functions, different mechanisms (stale caches, aliasing between objects, state carried across calls, "
+             "two cooperating sites, evaluation-order and short-circuit effects, type/truthiness slips, off-by-one at range ends, "
+             "platform/locale/timezone dependence, numeric conditioning at unusual scales or places on the globe) and different clauses "
+             "of the statement:\n" + "\n".join(f"  - {k}" for k in known))
 p = next(json.loads(l) for l in open('/verif/properties.jsonl') if json.loads(l)['id'] == pid)
 print(f"""You are testing how well a (hidden) verification suite detects regressions in the Python library `geostructures` (ccbest/geostructures). You have your own scratch git worktree of the repository at {wt} (work ONLY there; do not look at or touch /repo or /verif). Run Python with /venv/bin/python; run the unit tests with `cd {wt} && /venv/bin/python -m pytest -q -p no:cacheprovider -x tests` (2 tests fail already at baseline: test_compile and test_geoellipse_from_covariance_matrix; nothing else may newly fail; pytest run from the worktree imports the worktree's copy).
 
@@ -14,12 +29,14 @@ quantified over: {p['quantifier']['text']}
 why unit tests cannot settle it: {p['why_tests_cant']}
 code anchors: {json.dumps(p['anchors']['files'])}; mechanisms: {json.dumps(p['anchors']['mechanism'])}
 
+{extra}
+
 Task: produce THREE independent, realistic source changes (bugs a developer could plausibly introduce while refactoring or optimising: off-by-one, wrong comparison operator, swapped arguments, dropped/added branch, wrong default, stale cache, aliasing, wrong order of operations, mishandled degenerate case …) each of which
   (a) BREAKS the property above,
   (b) still compiles/imports and keeps the existing unit-test suite passing exactly as at baseline, and
   (c) needs something SPECIFIC to manifest — an unusual or degenerate input, a particular relative placement, a multi-step sequence of operations, two cooperating sites that each look fine alone — not something ordinary use would expose at once. Make the three changes different in kind and in location (different functions where possible). Keep each change small (1–10 lines).
 
-For each change i in 1..3 write, under {wt}/../out_{pid}/change_i/ :
+For each change i in 1..3 write, under {wt}/../out_{pid}_r{rnd}/change_i/ :
   - patch.diff      : `git diff` of that change alone against the worktree HEAD (apply it, save the diff, then `git checkout -- .` before starting the next one)
   - demo.py         : a small standalone program (run as `/venv/bin/python demo.py` with cwd = the repository root so that it imports that tree's geostructures; insert `import sys; sys.path.insert(0, '.')` at the top) that exits 0 on the UNCHANGED tree and exits 1 (printing what went wrong) when the change is applied — it must demonstrate a violation of the property statement itself, not merely that the code differs
   - meta.json       : {{"property": "{pid}", "summary": "...", "needs": "what specific input/sequence is needed for it to manifest", "files": [...], "tests_pass": true}}
